@@ -429,10 +429,16 @@ func runCore(t *testing.T, cfg coreCfg) {
 			t.Fatal(err)
 		}
 		if d == nil {
-			oc, oe, os2 := m.OrdStats()
+			oc, oe, os2, fin, fout := m.OrdFragStats()
 			st.Count("ordered_refinement_steps_ok", oc)
 			st.Count("ordered_refinement_steps_excluded", oe)
 			st.Count("ordered_refinement_steps_clock_assumption_failed", os2)
+			// the fragment of C05_fragment: steps inside it, and histories that never leave it
+			st.Count("fragment_steps_inside", fin)
+			st.Count("fragment_steps_outside", fout)
+			if fout == 0 && fin > 0 {
+				st.Count("fragment_histories_entirely_inside", 1)
+			}
 		}
 		if d != nil {
 			kind := mismatchKind(d.Answer)
@@ -918,8 +924,58 @@ func orderedStream(t *testing.T, st *Stats) {
 	}
 }
 
+// fragmentHistories: histories made only of operations of the fragment on which C05 is proved outright
+// (`C05_fragment`: no dead-letter policies, no seeks, no configuration updates; publishes, pulls, acks,
+// nacks, deadline changes, subscription and topic churn, snapshots, expiry and the delivery prune jobs):
+// the theorem says no overtaking can happen in them; the real code is run on them, the ordering monitor
+// and the model are applied, and the model's driver confirms that every step was inside the fragment.
+func fragmentHistories(t *testing.T, st *Stats) {
+	m, err := StartModel()
+	if err != nil {
+		t.Fatal(err)
+	}
+	defer m.Close()
+	n := 12
+	if Tier() == "thorough" {
+		n = 300
+	}
+	prof := Profile{Name: "C05-fragment", Publish: 7, Pull: 7, Ack: 5, Nack: 3, Delay: 2, Advance: 4, Maint: 2, Snap: 1, Churn: 1, NoSeek: true, NoDL: true, OrderedOnly: true, Frag: true}
+	for k := 0; k < n; k++ {
+		seed := Seed()*7919 + int64(k)
+		h := RunHistory(t, seed, NewGen(seed, prof), nil, 90, true)
+		st.Count("fragment_histories", 1)
+		for _, f := range h.Findings {
+			if f.Prop == "C05" {
+				p := writeReplay(fmt.Sprintf("C05-fragment-%s-%d.json", f.Sig, seed), replayFile{Property: "C05", Sig: "fragment-" + f.Sig, What: f.What, Seed: seed, Ops: h.Ops, Trace: traceOf(h.Lines, 60)})
+				st.Violate(Violation{What: fmt.Sprintf("[fragment-%s] in a history of the fragment on which the property is proved outright: %s", f.Sig, f.What), Replay: p, FoundInput: true, Sig: "fragment-" + f.Sig})
+				return
+			}
+		}
+		d, err := m.Check(h.Lines)
+		if err != nil {
+			t.Fatal(err)
+		}
+		if d != nil {
+			p := writeReplay(fmt.Sprintf("C05-fragment-correspondence-%d.json", seed), replayFile{Property: "C05", Sig: "correspondence", What: d.String(), Seed: seed, Ops: h.Ops, Trace: traceOf(h.Lines, 60)})
+			st.Violate(Violation{What: "correspondence with the model broken on a history of the fragment: " + d.String(), Replay: p, FoundInput: false, Sig: "correspondence"})
+			return
+		}
+		_, _, _, fin, fout := m.OrdFragStats()
+		st.Count("fragment_profile_steps_inside", fin)
+		st.Count("fragment_profile_steps_outside", fout)
+		if fout == 0 && fin > 0 {
+			st.Count("fragment_histories_entirely_inside", 1)
+		}
+	}
+}
+
 func TestC05(t *testing.T) {
-	runCore(t, coreCfg{prop: "C05", extra: orderedStream, profile: profC05, quickSeeds: 40, thoroughSeeds: 1600, nops: 100, drain: true})
+	runCore(t, coreCfg{prop: "C05", extra: func(t *testing.T, st *Stats) {
+		orderedStream(t, st)
+		if !hasConcrete(st.Violations) {
+			fragmentHistories(t, st)
+		}
+	}, profile: profC05, quickSeeds: 40, thoroughSeeds: 1600, nops: 100, drain: true})
 }
 func TestC06(t *testing.T) {
 	runCore(t, coreCfg{prop: "C06", extra: waitingPullCurrentPolicy("C06"), profile: profC06, quickSeeds: 40, thoroughSeeds: 1600, nops: 100, drain: true})
